@@ -361,11 +361,16 @@ def _fast_whole_case(ctx, ssi, H, br, ordmax, step, key):
     of channels l = int(H.shape[0]/(br+1)) and FORMS the LAPACK arguments: exception class; Obs; the matrix handed to
     np.linalg.qr (entry by entry, one rounding); the matrices handed to the successive np.linalg.inv calls (exact: slices of the
     recorded R); number, shapes and values of the list entries A, C.  The recorded inverses satisfy the contract QrC.inv."""
-    svds, qrs, invs = [], [], []
+    svds, qrs, invs, solves = [], [], [], []
     try:
-        with record(np.linalg, "svd", svds), record(np.linalg, "qr", qrs), record(np.linalg, "inv", invs):
+        with record(np.linalg, "svd", svds), record(np.linalg, "qr", qrs), record(np.linalg, "inv", invs), record(np.linalg, "solve", solves):
             Obs, A, C, *_ = ssi.SSI_fast(H, br, ordmax, step)
         raised = None
+        if not invs and solves:
+            # the routine solves R[:n,:n] X = S[:n,:n] instead of forming the inverse (same LU factorisation, same contract
+            # "left inverse of the block"): the block handed to `solve` is the inv-argument, its float inverse the recorded factor
+            invs = [((a[0],), np.linalg.inv(np.asarray(a[0], dtype=float)) if np.asarray(a[0]).size else np.zeros((0, 0))) for (a, _o) in solves]
+            ctx.count("fast_whole_solve_instead_of_inv")
     except (ValueError, IndexError, ZeroDivisionError) as e:  # LinAlgError is a ValueError
         raised = type(e).__name__
         if "ingular" in str(e):  # inv of an exactly singular block: no recorded result to hand to the model
